@@ -33,6 +33,7 @@ type Prog struct {
 
 	srcFuncs []*ssa.Function
 	parents  map[*ssa.Function]*ssa.MakeClosure
+	deadLits map[*ssa.Function]bool // literals whose every call was inlined (flatten.go)
 	cells    map[*ssa.Alloc]*cellInfo
 	exprMemo map[ssa.Value]*Expr
 	vtaEdges map[ssa.CallInstruction][]*ssa.Function
@@ -65,6 +66,9 @@ func LoadEnv(dir string, extraEnv []string, patterns ...string) (*Prog, error) {
 		Dir:   dir,
 		Env:   env,
 		Tests: false,
+		// loops over the library's sequence splitters are read as loops over
+		// the slices they stand for (overlay.go)
+		Overlay: seqOverlay(dir),
 	}
 	pkgs, err := packages.Load(cfg, patterns...)
 	if err != nil {
@@ -163,10 +167,14 @@ func (p *Prog) collectSrcFuncs() {
 			}
 		}
 		for _, a := range f.AnonFuncs {
-			add(a)
+			if !p.deadLits[a] {
+				add(a)
+			}
 		}
 		for _, a := range f.InlinedAnonFuncs() {
-			add(a)
+			if !p.deadLits[a] {
+				add(a)
+			}
 		}
 	}
 	paths := make([]string, 0, len(p.ByPath))
@@ -250,10 +258,16 @@ func (p *Prog) Func(pkgPath, name string) *ssa.Function {
 func Closures(fn *ssa.Function) []*ssa.Function {
 	out := []*ssa.Function{fn}
 	for _, a := range fn.AnonFuncs {
+		if current != nil && current.deadLits[a] {
+			continue
+		}
 		out = append(out, Closures(a)...)
 	}
 	// literals created through inlined copies of helper bodies
 	for _, a := range fn.InlinedAnonFuncs() {
+		if current != nil && current.deadLits[a] {
+			continue
+		}
 		out = append(out, Closures(a)...)
 	}
 	// method values: the synthetic wrappers they close over
